@@ -18,6 +18,8 @@ struct gm_params {
 	uint64_t seed;
 	unsigned n_lps, n_types, max_fan, thr_base, thr_spread, use_rng, mem_ops, t0_events;
 	unsigned skew; /* LPs tick on very different time scales: some run far ahead of the GVT with sparse histories */
+	unsigned live; /* frozen LPs keep re-scheduling their tick (no state change): the event population never dies out, so a run can end
+	               * only through the termination predicates / termination time (no Lean twin: implementation-side oracles only) */
 	unsigned lib; /* also use the floating-point library RNG API (no Lean twin: judged by the implementation-side oracles only) */
 };
 static struct gm_params GM;
@@ -64,7 +66,12 @@ static inline uint64_t gm_fnv_u32(uint64_t h, uint32_t v)
 
 static inline uint64_t gm_threshold(lp_id_t lp)
 {
-	return GM.thr_base + (GM.thr_spread ? gm_mix(GM.seed ^ (0xabcdULL + lp)) % GM.thr_spread : 0);
+	/* thr_spread >= 1000 encodes two values: every (thr_spread / 1000)-th LP satisfies its predicate already at LP_INIT
+	 * (threshold 0), the others use the spread thr_spread % 1000 */
+	unsigned zmod = GM.thr_spread / 1000, spread = GM.thr_spread % 1000;
+	if(zmod && lp % zmod == 0)
+		return 0;
+	return GM.thr_base + (spread ? gm_mix(GM.seed ^ (0xabcdULL + lp)) % spread : 0);
 }
 
 /* digest of everything the model keeps in rollbackable memory, RNG state included */
@@ -184,8 +191,14 @@ static void gm_process(lp_id_t me, simtime_t now, unsigned type, const void *pl,
 	int frozen = st->cnt >= gm_threshold(me);
 	if(gm_on_dispatch)
 		gm_on_dispatch(me, tq, type, pl, size, frozen);
-	if(frozen)
+	if(frozen) {
+		if(GM.live && type == GM.n_types - 1) {
+			uint64_t hf = gm_mix(GM.seed ^ ((uint64_t)type * 0x9e3779b1ULL));
+			gm_send(me, tq + GM_DELAYS_Q[1 + (hf >> 8) % 6] * (1 + (me % 3) * GM.skew), type, GM_SIZES[(hf >> 24) % 8], st->acc,
+			    (hf >> 40) & 1);
+		}
 		return;
+	}
 	/* 1. absorb the event */
 	uint64_t h = gm_mix(st->acc ^ gm_mix(tq * GM_FNV_PRIME ^ type ^ ((uint64_t)size << 32)));
 	h = gm_fnv_bytes(h, pl, size);
